@@ -21,6 +21,9 @@ ISIZE_MAX = 2**63 - 1
 TOP = None
 
 
+DEVICE_POSITION_CALLS = ("seek", "stream_position", "stream_len")
+
+
 def ty_range(ty):
     return INT_RANGES.get(ty.strip())
 
@@ -323,6 +326,10 @@ class Intervals:
                             v = self.ok_payload_interval(g, depth + 1)
                             if v is not None:
                                 return meet(ty_range(last["ty"]), v)
+                        if g is None and c.rsplit("::", 1)[-1] in DEVICE_POSITION_CALLS and "Seek" in c:
+                            # axiom (stated in every evidence file that uses A5): a device position / length fits an
+                            # off_t, i.e. is below 2^63 (std::fs::File) or below isize::MAX (Cursor)
+                            return meet(ty_range(last["ty"]), (0, (1 << 63) - 1))
                         if c.rsplit("::", 1)[-1] == "checked_sub" and len(pay2["args"]) == 2:
                             a = self.operand(fn, pay2["args"][0], d2[0][2], depth + 1, seen)
                             b = self.operand(fn, pay2["args"][1], d2[0][2], depth + 1, seen)
